@@ -32,6 +32,7 @@ def m_clone(ctx): return ctx.ret(ctx.deref(ctx.args[0]))
 OVERRIDES = [(r'^(?:names::)?alternate_lookup_key$', m_alt), (r'^<semver::Version as PartialOrd>::(?:lt|le|gt|ge)$', m_version_cmp),
              (r'^<semver::Version as Clone>::clone$', m_clone)]
 
+
 def triple_lt(a, b):
     """version triple of name a strictly lower than that of b (build metadata left open)"""
     return Or(ULT(vmaj(a), vmaj(b)), And(vmaj(a) == vmaj(b), Or(ULT(vmin(a), vmin(b)), And(vmin(a) == vmin(b), ULT(vpat(a), vpat(b))))))
@@ -57,3 +58,27 @@ def render(m, t, seen):
     else:
         s_ = f'p{ident}:p/i'
     seen[ident] = s_; return s_
+
+# ---- textual order of names (`&str` comparisons): exact for two rendered names of one track (same prefix, so the decimal text of the
+# version components decides: a component is followed by `.` or `+`, both smaller than any digit), an arbitrary strict order otherwise
+str_lt_uf = z3.Function('str_lt', I, I, B)
+def _digits(x):
+    """decimal digits of x < 1000, left-aligned, padded with -1 (the separator that follows sorts below every digit)"""
+    from z3 import BV2Int, UGE
+    n = BV2Int(x)
+    d3 = (n / 100, (n / 10) % 10, n % 10); d2 = (n / 10, n % 10, z3.IntVal(-1)); d1 = (n, z3.IntVal(-1), z3.IntVal(-1))
+    return tuple(If(n >= 100, a, If(n >= 10, b, c)) for a, b, c in zip(d3, d2, d1))
+def _lex_lt(xs, ys):
+    r = z3.BoolVal(False)
+    for x, y in reversed(list(zip(xs, ys))): r = Or(x < y, And(x == y, r))
+    return r
+def text_lt(a, b):
+    seq = lambda t: _digits(vmaj(t)) + _digits(vmin(t)) + _digits(vpat(t)) + (t,)
+    return If(same_track(a, b), _lex_lt(seq(a), seq(b)), And(a != b, str_lt_uf(a, b)))
+def m_str_cmp(ctx):
+    a = to_atom(ctx.eng, ctx.deref(ctx.args[0])).t; b = to_atom(ctx.eng, ctx.deref(ctx.args[1])).t
+    lt = text_lt(a, b); eq = a == b
+    op = ctx.callee.rsplit('::', 1)[1]
+    return ctx.ret({'lt': lt, 'le': Or(lt, eq), 'gt': And(Not(lt), Not(eq)), 'ge': Not(lt)}[op])
+
+OVERRIDES.append((r'^<&?(?:str|std::string::String|String) as PartialOrd(?:<.*>)?>::(?:lt|le|gt|ge)$', m_str_cmp))
